@@ -12,6 +12,24 @@ import Scalibr.Model.Parsers.Common
 namespace Scalibr.Parsers.Gradle
 open Scalibr.Parsers
 
+/-- `isGradleLockFileDepLine` + `parseToGradlePackageDetail` as written: `strings.SplitN(line, ":", 3)`, the
+`len(parts) < 3` guard, `parts[0], parts[1], parts[2]`, `strings.Contains(version, "=")`,
+`strings.SplitN(version, "=", 2)[0]`. Outer `none` = Go would panic with an index out of range. -/
+def gradleLineGo (raw : Line) : Option (Option (List Char × List Char)) :=
+  let l := trimSpace raw
+  if hasPrefix ['#'] l || hasPrefix "empty=".toList l then some none else
+  let parts := splitN ':' 3 l
+  if parts.length < 3 then some none else
+  match goIndex parts 0, goIndex parts 1, goIndex parts 2 with
+  | some g, some a, some v =>
+    if !v.contains '=' then some none else
+    match goIndex (splitN '=' 2 v) 0 with
+    | some ver => some (some (g ++ ':' :: a, ver))
+    | none => none
+  | _, _, _ => none
+
+/-- the same function written with `strings.Cut` (no indexing); `gradleLineGo_eq` (Proofs) shows
+`gradleLineGo raw = some (gradleLine raw)` for every line — that IS the no-panic statement for this parser -/
 def gradleLine (raw : Line) : Option (List Char × List Char) :=
   let l := trimSpace raw
   if hasPrefix ['#'] l || hasPrefix "empty=".toList l then none else
@@ -27,7 +45,8 @@ def gradleLine (raw : Line) : Option (List Char × List Char) :=
 
 def parse (bytes : List Char) : Outcome (List (List Char × List Char)) :=
   let (ls, tl) := scan bytes
-  let pkgs := ls.filterMap gradleLine
-  if tl then .err else .ok pkgs
+  match ls.mapM gradleLineGo with
+  | none => .panic
+  | some xs => if tl then .err else .ok (xs.filterMap id)
 
 end Scalibr.Parsers.Gradle
